@@ -79,6 +79,13 @@ def burst (s : St) (k n : Nat) : St × Nat × Bool :=
        c.executing + n, false)
     else (closeConn s k, 0, true)
 
+/-- `n` requests, one after the other, each refused with a recoverable error (e.g. LEAVE of an unknown channel): every one of them
+    gives its slot back, the connection stays open; result as for `burst` -/
+def failing (s : St) (k _n : Nat) : St × Nat × Bool :=
+  match s.conns.find? (fun c => c.id = k) with
+  | none => (s, 0, false)
+  | some c => (s, c.executing, false)
+
 /-- every parked handler completes -/
 def release (s : St) : St × Nat :=
   ({ s with conns := s.conns.map (fun c => { c with executing := 0 }) }, (s.conns.map (·.executing)).sum)
